@@ -620,10 +620,9 @@ else:
 
                 cls.__model_fields__[name] = field
 
-        def __init__(__mcp_self__, **data: Any):
-            # The instance parameter has an unlikely name so that a member of the
-            # data called "self" (extra members are allowed) is just data
-            self = __mcp_self__
+        def __init__(self, /, **data: Any):
+            # "self" is positional-only: a member of the data that is called
+            # "self" (extra members are allowed) is just data
 
             # Process aliases
             processed_data = self._process_aliases(data)
@@ -811,10 +810,8 @@ else:
             result = {}
 
             for key, value in self.__dict__.items():
-                # Only dunder names are internal; an extra member such as
-                # "__typename" is data and must be dumped like any other
-                if key.startswith("__") and key.endswith("__"):
-                    continue
+                # (the instance dict holds nothing but the model's data: fields and
+                # extra members, whatever their names - "__typename", "__proto__", ...)
 
                 if include and key not in include:
                     continue
